@@ -417,11 +417,11 @@ class TlsHandshakeClientHello(TlsHandshakeHello):  # pylint: disable=too-many-in
         validator=attr.validators.instance_of(TlsCipherSuiteVector)
     )
     protocol_version = attr.ib(
-        default=TlsProtocolVersion(TlsVersion.TLS1_2),
+        default=attr.Factory(lambda: TlsProtocolVersion(TlsVersion.TLS1_2)),
         validator=attr.validators.instance_of(TlsProtocolVersion),
     )
     random = attr.ib(
-        default=TlsHandshakeHelloRandom(),
+        default=attr.Factory(TlsHandshakeHelloRandom),
         validator=attr.validators.instance_of(TlsHandshakeHelloRandom),
     )
     session_id = attr.ib(
@@ -544,11 +544,11 @@ class TlsHandshakeClientHello(TlsHandshakeHello):  # pylint: disable=too-many-in
 @attr.s
 class TlsHandshakeServerHello(TlsHandshakeHello):
     protocol_version = attr.ib(
-        default=TlsProtocolVersion(TlsVersion.TLS1_2),
+        default=attr.Factory(lambda: TlsProtocolVersion(TlsVersion.TLS1_2)),
         validator=attr.validators.instance_of(TlsProtocolVersion),
     )
     random = attr.ib(
-        default=TlsHandshakeHelloRandom(),
+        default=attr.Factory(TlsHandshakeHelloRandom),
         validator=attr.validators.instance_of(TlsHandshakeHelloRandom),
     )
     session_id = attr.ib(
@@ -859,11 +859,13 @@ TLS_HANDSHAKE_HELLO_RETRY_REQUEST_RANDOM = TlsHandshakeHelloRandom.parse_exact_s
 class TlsHandshakeHelloRetryRequest(TlsHandshakeHello):
     cipher_suite = attr.ib(default=None, validator=attr.validators.in_(TlsCipherSuite))
     protocol_version = attr.ib(
-        default=TlsProtocolVersion(TlsVersion.TLS1_3),
+        default=attr.Factory(lambda: TlsProtocolVersion(TlsVersion.TLS1_3)),
         validator=attr.validators.instance_of(TlsProtocolVersion),
     )
     random_bytes = attr.ib(
-        default=TLS_HANDSHAKE_HELLO_RETRY_REQUEST_RANDOM,
+        default=attr.Factory(
+            lambda: TlsHandshakeHelloRandom.parse_exact_size(TLS_HANDSHAKE_HELLO_RETRY_REQUEST_RANDOM_BYTES)
+        ),
         validator=attr.validators.instance_of(TlsHandshakeHelloRandom),
     )
     session_id = attr.ib(
